@@ -101,7 +101,10 @@ def _case(draw):
         # cell size relative to the peak distance so that the grid sees the footprint, not only its far tails
         case["res"] = float(f"{xpk * draw(gen.logfl(0.03, 1.5)):.6g}")
         case["ext"] = [draw(st.integers(2, 14)), draw(st.integers(2, 14)), draw(st.integers(2, 14)), draw(st.integers(2, 14))]
-        case["mxy"] = [draw(gen.fl(-30.0, 30.0)), draw(gen.fl(-30.0, 30.0))] if draw(st.booleans()) else [0.0, 0.0]
+        # receptor coordinates in metres: zero or at least a micrometre (1e-164 m is not a position; with such offsets the
+        # power law overflows before the exponential underflows - inf*0 - which no physical input reaches)
+        mcoord = gen.fl(-30.0, 30.0).map(lambda v: v if abs(v) >= 1e-6 else 0.0)
+        case["mxy"] = [draw(mcoord), draw(mcoord)] if draw(st.booleans()) else [0.0, 0.0]
         case["wd"] = draw(st.one_of(st.none(), st.sampled_from([0.0, 90.0, 180.0, 270.0, 360.0]), gen.fl(0.0, 360.0)))
         case["wd_int"] = draw(st.booleans())
         case["on_centre"] = draw(st.integers(0, 3)) == 0  # receptor exactly on a cell centre (zero along-wind distance cells)
